@@ -315,6 +315,11 @@ pub fn arb_op(w: &W) -> BoxedStrategy<Op> {
             .prop_map(|(s, d, delta_us)| Op::GoTo { s, d, delta_us })
             .boxed(),
     );
+    // between two deadlines that lie milliseconds apart (deliveries handed out in quick succession)
+    add(
+        (w.goto + 1) / 2,
+        (s.clone(), 0u8..3, prop_oneof![Just(500i64), Just(1_000), Just(1_500), Just(3_000), Just(-500)]).prop_map(|(s, back, delta_us)| Op::GoToActual { s, back, delta_us }).boxed(),
+    );
     add(w.abort, (0u8..8).prop_map(|c| Op::Abort { c }).boxed());
     add(
         w.abandon_pull,
